@@ -253,3 +253,43 @@ PROPS["C17"] = dict(
                                 "'take effect on return' = the rendezvous on the unbuffered command channel followed in the same goroutine by addInput/removeInput before any other channel operation (observed on the event trace)"],
     bounds=dict(quick="steps n<=3; command runs n=1, 2 commands", thorough="steps n<=4; command runs n<=2"),
     groups=_V1_C17 + [_V1_MAIN])
+
+PROPS["C19"] = dict(
+    level="model_checking",
+    level_text="Per go statement found in the SSA of the library (recomputed on every run): the goroutine function is run symbolically to its return in every termination mode that applies "
+               "(normal close of inputs, ErrDividerBad, v1 graceful stop, Stop and cancel at arbitrary points) from arbitrary discipline states; every path must end (no BLOCKED / LASSO), tickers must be "
+               "stopped, and after the goroutine's first termination signal (close of output/err) no blocking operation may follow. Goroutines a harness did not start explicitly are run at the end "
+               "('leftover' obligation) and must end by themselves - this is what catches a goroutine added by a change. Handlers: v2 leave their range on output close; v1 return on context cancel and sign off from the WaitGroup before the channels are closed.",
+    level_note="Bounds as for the harnesses reused (C03, C04, C07, C16 runs). A go site whose function no harness runs to completion is reported as UNPROVEN, not as passed. "
+               "Not covered: goroutines of test-only internal packages (measurer, unmanaged, research).",
+    technique="symbolic execution of go/ssa of every goroutine function to completion under each termination mode; go sites enumerated from SSA; SMT (z3) for path feasibility",
+    assumptions=_PRIO_ASSUME + _JOIN_ASSUME,
+    bounds=dict(quick="as C03/C04/C07/C16 quick", thorough="as C03/C04/C07/C16 thorough"),
+    gosites=[dict(mod="v2", pkg="priority", overlay="harness/v2/priority"), dict(mod="v2", pkg="priority/simple", overlay="harness/v2/simple"),
+             dict(mod="v2", pkg="join", overlay="harness/v2/join"), dict(mod="v2", pkg="join/unite", overlay="harness/v2/unite"),
+             dict(mod="v2", pkg="limit", overlay="harness/v2/limit"), dict(mod="v1", pkg="priority", overlay="harness/v1/priority"),
+             dict(mod="v1", pkg="join", overlay="harness/v1/join")],
+    groups=[_G_LOOP1, _G_RUN, _G_NEW, _G_SIMPLE, _V1_MAIN, _V1_NEW, _V1_SIMPLE,
+            _v1p("^VerifC16_v1prio_stop$", dict(n=[1], J=[1], B=[1], K=[1]), dict(n=[1], J=[1], B=[1], K=[1])),
+            dict(mod="v2", pkg="join", overlay="harness/v2/join", harness="^VerifC03_join_", params=dict(quick=dict(JS=[2], M=[3], T=[2]), thorough=dict(JS=[2, 3], M=[4], T=[2]))),
+            dict(mod="v2", pkg="join/unite", overlay="harness/v2/unite", harness="^VerifC03_unite_", params=dict(quick=dict(JS=[2], K=[2], T=[2]), thorough=dict(JS=[2, 3], K=[3], T=[2]))),
+            dict(mod="v2", pkg="limit", overlay="harness/v2/limit", harness="^VerifC04_limit_run", params=dict(quick=dict(M=[0, 2, 3]), thorough=dict(M=[0, 1, 2, 3, 4, 5]))),
+            dict(mod="v1", pkg="join", overlay="harness/v1/join", harness="^Verif(C03_v1join_normal|C16_v1join_stop)", params=dict(quick=dict(JS=[2], M=[3], T=[2]), thorough=dict(JS=[2, 3], M=[4], T=[2])))])
+
+_INACC = dict(quick=dict(inacc=[0, 1, 25, 34, 50, 100, 101], JS=[3]), thorough=dict(inacc=[0, 1, 2, 3, 4, 5, 6, 7, 8, 9, 10, 11, 12, 14, 16, 20, 25, 33, 34, 50, 51, 100, 101, 1000], JS=[2, 3, 4]))
+PROPS["C10"] = dict(
+    level="other",
+    level_text="Solver-decided step obligations plus a written timing argument (no unbounded liveness is claimed from bounded checking): (a) calcInterruptInterval as a pure function with Timeout symbolic over int64 and every "
+               "value class of TimeoutInaccuracy: tau*d <= Timeout < (tau+1)*d, errors exactly in the documented cases (v1: tau >= 10ms); (b) New wires that interval into the ticker (period == tau, not Timeout); "
+               "(c) on the real loop() of join (v1, v2) and unite from an ARBITRARY buffer state whose elements were accepted no earlier than passAt: a tick read at now with now-passAt >= Timeout flushes the whole buffer, "
+               "an earlier tick changes nothing, an arrival never moves passAt unless it flushes (so a steady trickle cannot postpone the flush), and the invariant 'accepted no earlier than passAt' is preserved.",
+    level_note="What is NOT decided by the solver: that the runtime delivers a tick within tau+lambda of the previous one while the loop is not blocked (time.Ticker contract) and that a ready consumer takes a slice within lambda. "
+               "With these two assumptions the obligations give: stay <= Timeout + tau + c*lambda <= Timeout*(1+1/floor(100/inaccuracy)) + c*lambda (DESIGN 7 C10). Bounds: JoinSize 3 (thorough 2..4), one event per step.",
+    technique="symbolic execution of go/ssa: pure-function obligations over the whole int64 domain + inductive step obligations on loop() with a symbolic clock; Int-encoded SMT (z3)",
+    explanation="Checked by the solver: (a) tau*d <= Timeout < (tau+1)*d and the error cases of calcInterruptInterval for all Timeout; (b) ticker period == tau; (c) inductive step on loop(): flush at the first tick with now-passAt >= Timeout, "
+                "passAt unchanged by arrivals that do not flush, buffered elements accepted no earlier than passAt. Combined on paper with the time.Ticker contract these bound the stay of an element by Timeout*(1+1/d) + c*lambda.",
+    assumptions=_JOIN_ASSUME + ["time.Ticker delivers ticks with period tau (+ jitter <= lambda) while the receiver is not blocked elsewhere; a ready consumer takes a slice within lambda (both are the property's own premises: 'a consumer ready to receive', 'plus scheduling latency')"],
+    bounds=dict(quick="inaccuracy in {0,1,25,34,50,100,101}, JoinSize 3, one event per step, Timeout over all int64", thorough="24 inaccuracy values covering every value of floor(100/inaccuracy), JoinSize 2..4"),
+    groups=[dict(mod="v2", pkg="join", overlay="harness/v2/join", harness="^VerifC10_", params=_INACC),
+            dict(mod="v2", pkg="join/unite", overlay="harness/v2/unite", harness="^VerifC10_", params=_INACC),
+            dict(mod="v1", pkg="join", overlay="harness/v1/join", harness="^VerifC10_", params=_INACC)])
